@@ -1,13 +1,20 @@
 #!/bin/bash
-# usage: tools/try_mutant.sh <patch.diff> <property> [quick|thorough]   -- applies the patch to /repo, runs the check, reverts.
+# usage: tools/try_mutant.sh <patch.diff> <property> [quick|thorough]
+# Applies the patch to a scratch worktree of /repo (never to /repo itself: other runs may be reading
+# it), runs the check against that copy (VERIF_REPO), and removes the worktree's changes again.
 set -u
 patch=$(readlink -f "$1"); prop=$2; tier=${3:-quick}
-cd /repo || exit 9
-if [ -n "$(git status --porcelain)" ]; then echo "/repo not clean"; exit 9; fi
-git apply "$patch" || { echo "patch does not apply"; exit 9; }
+slot=${MUT_SLOT:-0}
+wt=/var/tmp/vt/repo-mut-$slot
+if [ ! -d "$wt/.git" ] && [ ! -f "$wt/.git" ]; then
+  git -C /repo worktree add --detach "$wt" HEAD -q || exit 9
+fi
+git -C "$wt" checkout -q --detach "$(git -C /repo rev-parse HEAD)" 2>/dev/null
+git -C "$wt" checkout -- . && git -C "$wt" clean -fdq
+git -C "$wt" apply "$patch" || { echo "patch does not apply"; exit 9; }
 cd /verif
-VERIF_REPLAY_DIR=/var/tmp/vt/mutreplays ./check "$prop" "$tier" 2>&1 | grep -E "VIOLATION|INCONCLUSIVE|KNOWN|held on|phase=" | cut -c1-400
+VERIF_REPO="$wt" VERIF_REPLAY_DIR=/var/tmp/vt/mutreplays ./check "$prop" "$tier" 2>&1 | grep -E "VIOLATION|INCONCLUSIVE|KNOWN|held on|phase=" | cut -c1-400
 rc=${PIPESTATUS[0]}
-git -C /repo checkout -- . && git -C /repo clean -fdq
-git -C /verif checkout -- evidence 2>/dev/null
+git -C "$wt" checkout -- . && git -C "$wt" clean -fdq
+git -C /verif checkout -- evidence/$prop.json 2>/dev/null
 echo "rc=$rc"
